@@ -47,6 +47,13 @@ def build_lean(targets):
 def build_runner():
     lock = _locked("cargo-runner")
     try:
+        # the runner's path dependencies follow VERIF_REPO (default /repo)
+        ct = os.path.join(RUNNER_DIR, "Cargo.toml")
+        text = open(ct).read()
+        new = re.sub(r'path = "[^"]*/core"', 'path = "%s/core"' % REPO, text)
+        new = re.sub(r'path = "[^"]*/lib"', 'path = "%s/lib"' % REPO, new)
+        if new != text:
+            open(ct, "w").write(new)
         src, dst = os.path.join(REPO, "Cargo.lock"), os.path.join(RUNNER_DIR, "Cargo.lock")
         if not os.path.exists(dst) or open(src).read() != open(dst).read():
             shutil.copyfile(src, dst)
